@@ -29,7 +29,7 @@ Section Bridge.
   Proof.
     intros Hns H0 Hne H. rewrite accumulate_dir in H.
     assert (He : is_empty_kust (ns_only ns) ents = false).
-    { unfold is_empty_kust, dirs_empty, ns_only, mkPDirs, mkPDirsG. cbn [pd_ns]. destruct ents; [|reflexivity].
+    { unfold is_empty_kust, dirs_empty, ns_only, mkPDirs, mkPDirsG, mkPDirsX. cbn [pd_ns]. destruct ents; [|reflexivity].
       destruct (String.eqb ns "") eqn:E; [apply String.eqb_eq in E; contradiction|reflexivity]. }
     rewrite He, H0 in H. cbn [bind] in H.
     change (run_generators nonstr (ns_only ns) m0) with (Ok m0 : res (list resource)) in H. cbn [bind] in H.
